@@ -29,10 +29,9 @@ def gen_space(rng, ndims=None, sizes=(1, 2, 3, 5, 8), kinds=("int", "float"), or
     nd = ndims if ndims is not None else rng.choice([1, 1, 2, 2, 3])
     space, meta = {}, []
     for d in range(nd):
-        while True:
-            n = rng.choice(list(sizes))
-            if max_points is None or n * int(np.prod([len(v) for v in space.values()] or [1])) <= max_points:
-                break
+        cur = int(np.prod([len(v) for v in space.values()] or [1]))
+        fits = [s for s in sizes if max_points is None or s * cur <= max_points]
+        n = rng.choice(fits) if fits else 1
         kind = rng.choice(list(kinds))
         order = rng.choice(list(orders))
         start = rng.randint(-6, 6)
